@@ -69,6 +69,19 @@ def run_univariate(case):
             bad("not_reproducible", {"random_state": kind})
         if n >= 10 and np.array_equal(s1, s3):
             bad("different_seeds_equal", {"random_state": kind})
+        if kind == "generator":
+            # ONE Generator used for two consecutive calls: the stream advances (second block differs) and the pair is
+            # what an identically seeded Generator gives; n may be a numpy integer
+            ga, gb = np.random.default_rng(seed), np.random.default_rng(seed)
+            a1 = np.asarray(d.draw_sample(n, random_state=ga), dtype=float)
+            a2 = np.asarray(d.draw_sample(np.int64(n), random_state=ga), dtype=float)
+            b1 = np.asarray(d.draw_sample(n, random_state=gb), dtype=float)
+            b2 = np.asarray(d.draw_sample(n, random_state=gb), dtype=float)
+            ncalls += 4
+            if not (np.array_equal(a1, s1) and np.array_equal(a1, b1) and a2.shape == b2.shape and np.array_equal(a2, b2)):
+                bad("not_reproducible", {"random_state": "generator_used_twice"})
+            if n >= 10 and a2.shape == a1.shape and np.array_equal(a1, a2):
+                bad("generator_stream_not_advanced", {"n": n})
         if not np.all(np.isfinite(s1)):
             bad("non_finite", {})
             continue
@@ -144,6 +157,17 @@ def run_joint(case):
             bad("not_reproducible", {"random_state": kind})
         if n >= 10 and np.array_equal(S, S3):
             bad("different_seeds_equal", {"random_state": kind})
+        if kind == "generator":
+            ga, gb = np.random.default_rng(seed), np.random.default_rng(seed)
+            A1 = np.asarray(model.draw_sample(n, random_state=ga), dtype=float)
+            A2 = np.asarray(model.draw_sample(np.int64(n), random_state=ga), dtype=float)
+            B1 = np.asarray(model.draw_sample(n, random_state=gb), dtype=float)
+            B2 = np.asarray(model.draw_sample(n, random_state=gb), dtype=float)
+            ncalls += 4
+            if not (np.array_equal(A1, S) and np.array_equal(A1, B1) and A2.shape == B2.shape and np.array_equal(A2, B2)):
+                bad("not_reproducible", {"random_state": "generator_used_twice"})
+            if n >= 10 and A2.shape == A1.shape and np.array_equal(A1, A2):
+                bad("generator_stream_not_advanced", {"n": n})
         if not np.all(np.isfinite(S)):
             bad("non_finite", {})
             continue
